@@ -127,7 +127,7 @@ Lemma login_lookup c e s a :
   fst (login c e s) !! a =
     if decide (a_addr e = a) then fst (rec_step c e (s !! a)) else keep (a_now e) (s !! a).
 Proof.
-  unfold login, rl_check, rec_step, rl_check_locked, rl_inc, rl_remove.
+  unfold login, login_with, pick, rl_check, rec_step, rl_check_locked, rl_inc, rl_remove.
   destruct (decide (a_addr e = a)) as [->|Hne].
   - rewrite !cleanup_lookup.
     destruct (keep (a_now e) (s !! a)) as [x|] eqn:K.
@@ -147,7 +147,7 @@ Qed.
 
 Lemma login_out_rec c e s : snd (login c e s) = snd (rec_step c e (s !! a_addr e)).
 Proof.
-  unfold login, rl_check, rec_step, rl_check_locked. rewrite !cleanup_lookup.
+  unfold login, login_with, pick, rl_check, rec_step, rl_check_locked. rewrite !cleanup_lookup.
   destruct (keep (a_now e) (s !! a_addr e)) as [x|]; cbn.
   - destruct (fa_num x <? rl_max c)%N; cbn.
     + destruct (a_ok e); reflexivity.
@@ -267,7 +267,7 @@ Proof.
   assert (K : rl_cleanup (a_now x) s !! a = Some r).
   { rewrite cleanup_lookup, Hs. cbn. rewrite decide_True by lia. reflexivity. }
   split; [|exact K].
-  unfold login, rl_check, rl_check_locked. rewrite Ha, K.
+  unfold login, login_with, pick, rl_check, rl_check_locked. rewrite Ha, K.
   replace (fa_num r <? rl_max c)%N with false by (symmetry; apply N.ltb_ge; lia).
   replace (0 <? fa_until r - a_now x) with true by (symmetry; apply Z.ltb_lt; lia).
   reflexivity.
@@ -445,7 +445,7 @@ Definition sec (n : Z) : Z := n * 1000000000.
 Definition sliding_conf := {| rl_ttl := sec 60; rl_block := sec 900; rl_max := 3 |}.
 Definition sliding_addr : bytes := [49; 46; 50; 46; 51; 46; 52]%N.
 Definition sliding_hist : list att :=
-  map (fun t => {| a_now := sec t; a_now2 := sec t; a_addr := sliding_addr; a_ok := false |})
+  map (fun t => {| a_now := sec t; a_now2 := sec t; a_addr := sliding_addr; a_hdr := None; a_trusted := false; a_ok := false |})
       [0; 59; 61; 62; 63].
 
 Example sliding_window_refuted :
@@ -458,9 +458,9 @@ Proof. split; [cbn; unfold sec; lia|vm_compute; reflexivity]. Qed.
 Example block_premises_satisfiable :
   let c := {| rl_ttl := sec 60; rl_block := sec 900; rl_max := 3 |} in
   let a := sliding_addr in
-  let f t := {| a_now := sec t; a_now2 := sec t; a_addr := a; a_ok := false |} in
-  let o := {| a_now := sec 5; a_now2 := sec 5; a_addr := [120]%N; a_ok := false |} in
-  let x := {| a_now := sec 919; a_now2 := sec 919; a_addr := a; a_ok := true |} in
+  let f t := {| a_now := sec t; a_now2 := sec t; a_addr := a; a_hdr := Some [49;50;55;46;48;46;48;46;49]%N; a_trusted := true; a_ok := false |} in
+  let o := {| a_now := sec 5; a_now2 := sec 5; a_addr := [120]%N; a_hdr := None; a_trusted := false; a_ok := false |} in
+  let x := {| a_now := sec 919; a_now2 := sec 919; a_addr := a; a_hdr := Some [49;48;46;48;46;48;46;57]%N; a_trusted := true; a_ok := true |} in
   wf_from 0 ([f 0; o; f 10; f 20] ++ [] ++ [x]) /\
   burst a (N.to_nat (rl_max c)) [f 0; o; f 10; f 20] (f 20) /\
   ~ live (sec 0) ∅ a /\
@@ -473,4 +473,54 @@ Proof.
     apply burst_cons_a; auto. apply burst_one; auto.
   - intros (r & Hr & _). rewrite lookup_empty in Hr. discriminate.
   - repeat constructor; cbn; unfold sec; intros; try lia.
+Qed.
+
+(** * Proxy headers do not move the key
+
+    The record [att] carries what a request says about itself in proxy headers
+    ([a_hdr], [a_trusted]); every theorem above quantifies over it.  Said
+    directly: the decisions and the table depend on the peer address only. *)
+Definition same_but_headers (e e' : att) : Prop :=
+  a_now e = a_now e' /\ a_now2 e = a_now2 e' /\ a_addr e = a_addr e' /\ a_ok e = a_ok e'.
+
+Lemma login_ignores_headers c e e' s : same_but_headers e e' -> login c e s = login c e' s.
+Proof.
+  intros (H1 & H2 & H3 & H4). unfold login, login_with, pick. rewrite H1, H2, H3, H4. reflexivity.
+Qed.
+
+Theorem run_logins_ignores_headers c h h' : Forall2 same_but_headers h h' ->
+  forall s, run_logins c s h = run_logins c s h'.
+Proof.
+  induction 1 as [|e e' h h' He _ IH]; intros s; [reflexivity|].
+  rewrite !run_logins_cons, (login_ignores_headers c e e' s He), !IH. reflexivity.
+Qed.
+
+(** The two keys must both be the peer.  Counting under the logged address
+    while checking the peer: a client that sends [X-Real-IP: 127.0.0.1]
+    through a listener whose trusted_proxies contain 127.0.0.1 is never
+    blocked.  Checking and counting under the logged address: rotating the
+    header value does the same.  Both on a history that satisfies the
+    premises of [block_after_limit] (the code answers 429 from the fourth
+    attempt on). *)
+Definition hdr_loopback : bytes := [49;50;55;46;48;46;48;46;49]%N.   (* 127.0.0.1 *)
+Definition spoof_att (t : Z) : att :=
+  {| a_now := sec t; a_now2 := sec t; a_addr := sliding_addr; a_hdr := Some hdr_loopback;
+     a_trusted := true; a_ok := false |}.
+Definition spoof_fixed : list att := map spoof_att [0; 1; 2; 3; 4; 5].
+Definition spoof_rotating : list att :=
+  map (fun t => {| a_now := sec t; a_now2 := sec t; a_addr := sliding_addr;
+                   a_hdr := Some [49;48;46;48;46;48;46; Z.to_N (48 + t)]%N;      (* 10.0.0.<t> *)
+                   a_trusted := true; a_ok := false |}) [0; 1; 2; 3; 4; 5].
+
+Example key_mismatch_refuted :
+  wf_from 0 spoof_fixed /\
+  burst sliding_addr 3 (firstn 3 spoof_fixed) (spoof_att 2) /\
+  snd (run_logins sliding_conf ∅ spoof_fixed) = [L403; L403; L403; L429 (sec 899); L429 (sec 898); L429 (sec 897)] /\
+  snd (run_logins_with UsePeer UseLog sliding_conf ∅ spoof_fixed) = [L403; L403; L403; L403; L403; L403] /\
+  snd (run_logins sliding_conf ∅ spoof_rotating) = [L403; L403; L403; L429 (sec 899); L429 (sec 898); L429 (sec 897)] /\
+  snd (run_logins_with UseLog UseLog sliding_conf ∅ spoof_rotating) = [L403; L403; L403; L403; L403; L403].
+Proof.
+  split; [cbn; unfold sec; lia|]. split.
+  - cbn. apply burst_cons_a; auto. apply burst_cons_a; auto. apply burst_one; auto.
+  - vm_compute. auto.
 Qed.
